@@ -814,6 +814,16 @@ val bin_sum : ops -> z -> (z list * car) list -> car
 
 val bin_count : ops -> z -> (z list * car) list -> z
 
+val lead_copied : z -> z -> bool
+
+val last_copied : z -> z -> bool
+
+val vec_copied : z -> z list -> bool
+
+val odd_ok : z -> z list -> bool
+
+val resample_keeps : z -> z -> bool -> z list -> bool
+
 val aff : z -> z -> z -> z
 
 val affx : z -> z -> z -> z
